@@ -199,7 +199,7 @@ func Concretise(row *Row, variant, salt int, rng *rand.Rand) (*Conc, error) {
 			}
 		case "odd":
 			ip := addrIP(h.U.H.A, av, rng, memo)
-			host = OddV4(ip, variant+i)
+			host = OddV4(ip, av+i)
 			lookup = strings.ToLower(host)
 		case "empty":
 			host = ""
